@@ -421,6 +421,8 @@ func (i *Iter) MarshalJSONBuffer(dst []byte) ([]byte, error) {
 
 writeloop:
 	for {
+		// Set when a complete value has been written.
+		valueDone := false
 		// Write key names.
 		if stack[len(stack)-1] == stackObject && i.t != TagObjectEnd {
 			sb, err := i.StringBytes()
@@ -475,18 +477,21 @@ writeloop:
 			dst = escapeBytes(dst, sb)
 			dst = append(dst, '"')
 			tmpBuf = tmpBuf[:0]
+			valueDone = true
 		case TagInteger:
 			v, err := i.Int()
 			if err != nil {
 				return nil, err
 			}
 			dst = strconv.AppendInt(dst, v, 10)
+			valueDone = true
 		case TagUint:
 			v, err := i.Uint()
 			if err != nil {
 				return nil, err
 			}
 			dst = strconv.AppendUint(dst, v, 10)
+			valueDone = true
 		case TagFloat:
 			v, err := i.Float()
 			if err != nil {
@@ -496,16 +501,22 @@ writeloop:
 			if err != nil {
 				return nil, err
 			}
+			valueDone = true
 		case TagNull:
 			dst = append(dst, []byte("null")...)
+			valueDone = true
 		case TagBoolTrue:
 			dst = append(dst, []byte("true")...)
+			valueDone = true
 		case TagBoolFalse:
 			dst = append(dst, []byte("false")...)
+			valueDone = true
 		case TagObjectStart:
 			dst = append(dst, '{')
 			stack = append(stack, stackObject)
 			// We should not emit commas.
+			// Always move into the object, also when it was queued by Advance.
+			i.addNext = 0
 			i.AdvanceInto()
 			continue
 		case TagObjectEnd:
@@ -514,9 +525,12 @@ writeloop:
 				return dst, errors.New("end of object with no object on stack")
 			}
 			stack = stack[:len(stack)-1]
+			valueDone = true
 		case TagArrayStart:
 			dst = append(dst, '[')
 			stack = append(stack, stackArray)
+			// Always move into the array, also when it was queued by Advance.
+			i.addNext = 0
 			i.AdvanceInto()
 			continue
 		case TagArrayEnd:
@@ -525,6 +539,7 @@ writeloop:
 				return nil, errors.New("end of array with no array on stack")
 			}
 			stack = stack[:len(stack)-1]
+			valueDone = true
 		case TagEnd:
 			if i.PeekNextTag() == TagEnd {
 				return nil, errors.New("no content queued in iterator")
@@ -533,6 +548,11 @@ writeloop:
 			continue
 		}
 
+		if valueDone && len(stack) == 1 {
+			// A complete value outside any root, array or object:
+			// that is the scope of an iterator positioned on an inner value.
+			break
+		}
 		if i.PeekNextTag() == TagEnd {
 			break
 		}
